@@ -71,6 +71,13 @@ def case(chk, i):
             out.append(Verdict(VIOLATED, cname, "bindings do not parse: " + inv["error"], files=files))
             continue
         files["bindings.rs"] = open(b).read()
+        # decided from the declarations alone (the caller could not even name a `!` return value): a function that returns is never `-> !`
+        never = [m["name"] for it in inv["items"] if it["kind"] == "extern_block" for m in it["members"]
+                 if m["kind"] == "foreign_fn" and m["sig"].rstrip().endswith("-> !")]
+        wrong = [fn.name for fn in lib.fns if not getattr(fn, "noreturn", False) and fn.name in never]
+        if wrong:
+            out.append(Verdict(VIOLATED, cname, "function(s) %s return in C but are declared `-> !`" % wrong, files=files))
+            continue
         view = probes.RustView(inv)
         src, info = hfuncs.emit_rs(lib, view, b, None)
         prs = write(os.path.join(d, "caller_%s.rs" % oname), src)
@@ -79,7 +86,8 @@ def case(chk, i):
         rc, so, se, _ = sh(["rustc"] + RUSTC_FLAGS + [prs, "-C", "link-arg=" + obj, "-o", exe], timeout=300)
         problems = []
         obs = {"libraries_x_optsets": 1, "functions": len(lib.fns), "globals": len(lib.globals), "calls": 0, "values_compared": 0,
-               "signatures_compared": 0, "symbols_checked": 0}
+               "signatures_compared": 0, "symbols_checked": 0,
+               "functions_taking_inline_noreturn_handlers": sum(1 for fn in lib.fns if any(p_ is hfuncs.NRH for p_ in fn.params))}
         if rc != 0:
             locs = re.findall(r"^error[^\n]*\n\s*--> (\S+?):\d+:\d+", se, re.M)
             if "undefined symbol" in se or "undefined reference" in se:
